@@ -460,7 +460,8 @@ func (c *Coordinator) assignNoScrapingTargets(
 
 func (c *Coordinator) isTooBig(tar *target.ScrapeStatus) bool {
 	return (c.option.MaxHeadSeries != 0 && tar.Series > c.option.MaxHeadSeries) ||
-		tar.Series > c.option.MaxProcessSeries
+		tar.Series > c.option.MaxProcessSeries ||
+		tar.TotalSeries > c.option.MaxProcessSeries
 }
 
 func (c *Coordinator) getFreeShard(shards []*shardInfo, sp space) *shardInfo {
